@@ -66,6 +66,32 @@ func buildReplayBinary(repo, hdir, pkgDir string) (string, string) {
 		os.WriteFile(real, []byte(strings.ReplaceAll(string(b), "PKGNAME", pkgName)), 0o644)
 		ov[filepath.Join(repo, pkgDir, t.out)] = real
 	}
+	// cut-point files (regenerated from the current sources) and shim files of other packages
+	cuts, cerr := cutFiles(hdir, repo)
+	if cerr != nil {
+		replayBins[pkgDir], replayBuildErr[pkgDir] = "", cerr.Error()
+		return "", cerr.Error()
+	}
+	ci := 0
+	for f, b := range cuts {
+		ci++
+		real := filepath.Join(wd, fmt.Sprintf("cut_%d_%s", ci, filepath.Base(f)))
+		os.WriteFile(real, b, 0o644)
+		ov[f] = real
+	}
+	hents, _ := os.ReadDir(hdir)
+	for _, he := range hents {
+		if !he.IsDir() || !strings.HasPrefix(he.Name(), "MOD__") {
+			continue
+		}
+		dir := filepath.Join(modCache(), strings.ReplaceAll(he.Name()[5:], "__", "/"))
+		fs, _ := os.ReadDir(filepath.Join(hdir, he.Name()))
+		for _, f := range fs {
+			if strings.HasSuffix(f.Name(), ".go") {
+				ov[filepath.Join(dir, "zz_verif_"+f.Name())] = filepath.Join(hdir, he.Name(), f.Name())
+			}
+		}
+	}
 	ovb, _ := json.Marshal(map[string]interface{}{"Replace": ov})
 	ovFile := filepath.Join(wd, strings.ReplaceAll(pkgDir, "/", "__")+"_overlay.json")
 	os.WriteFile(ovFile, ovb, 0o644)
